@@ -61,7 +61,7 @@ def _mode_chain(fx, fn):
     """The if/elif chain of make_segment that dispatches on segment_mode: [(set of modes, body)]."""
     md = modes(fx)
     env = ev.base_env(fx.forest, 'encoder')
-    chain = [s for s in fn.body if isinstance(s, ast.If) and 'segment_mode ==' in ast.unparse(s.test)
+    chain = [s for s in fn.body if isinstance(s, ast.If) and any(isinstance(n, ast.Name) and n.id == 'segment_mode' for n in ast.walk(s.test))
              and any(isinstance(x, ast.For) for x in s.body)]
     top = single(chain, 'mode dispatch chain in make_segment')
     branches = []
@@ -278,11 +278,11 @@ def r4(fx):
     ms = fx.fn('encoder', 'make_segment')
     a = [s for s in ms.body if isinstance(s, ast.Assign) and 'data_to_bytes' in ast.unparse(s.value)]
     aa = single(a, 'data_to_bytes call in make_segment')
-    okd = ast.unparse(aa.targets[0]) in ('(segment_data, segment_length, segment_encoding)',) and \
+    okd = isinstance(aa.targets[0], ast.Tuple) and len(aa.targets[0].elts) == 3 and \
         pat.match(aa.value, 'data_to_bytes(data, encoding)') is not None
     yield ob('make_segment takes (bytes, length, encoding) from data_to_bytes(data, encoding)', okd, aa, got=ast.unparse(aa),
              want='segment_data, segment_length, segment_encoding = data_to_bytes(data, encoding)')
-    hz = [s for s in ms.body if isinstance(s, ast.If) and nf.norm(s.test) in ('mode == consts.MODE_HANZI',)]
+    hz = [s for s in ms.body if isinstance(s, ast.If) and nf.same_any(s.test, ('mode == consts.MODE_HANZI',))]
     okh = len(hz) == 1 and ast.unparse(hz[0].body[0]) == 'encoding = consts.HANZI_ENCODING' and ms.body.index(hz[0]) < ms.body.index(aa)
     yield ob('hanzi forces the GB2312 codec before conversion', okh, ms, got=[ast.unparse(h)[:80] for h in hz],
              want='if mode == consts.MODE_HANZI: encoding = consts.HANZI_ENCODING')
@@ -332,7 +332,7 @@ def r5(fx):
                      want='merge only if same mode, same encoding and char_count % group == 0; modes/bit_length consistent')
     # prepare_data feeds every part through make_segment -> add_segment in order
     pd = fx.fn('encoder', 'prepare_data')
-    calls = [c for c in src.calls_in(pd) if src.resolve_call(c, src.local_aliases(pd)) == 'segments.add_segment']
+    calls = [c for c in src.calls_in(pd) if (src.resolve_call(c, src.local_aliases(pd)) or '').endswith('.add_segment')]
     okp = len(calls) == 2 and all(isinstance(c.args[0], ast.Call) and src.call_name(c.args[0]) == 'make_segment' for c in calls)
     yield ob('prepare_data: add_segment(make_segment(part, mode, encoding)) for the single content and for each part', okp, pd,
              got=[ast.unparse(c)[:70] for c in calls], want='two add_segment(make_segment(...)) sites')
@@ -435,13 +435,15 @@ def r8(fx):
     order = []
     for st in enc.body:
         t = ast.unparse(st)
-        if isinstance(st, ast.If) and ast.unparse(st.test) == 'sa_mode':
+        if isinstance(st, ast.If) and nf.same_inlined(enc, st.test, 'sa_info is not None'):
             order.append('sa')
         elif isinstance(st, ast.For) and 'write_segment' in t:
             order.append('segments')
             b = pat.match(st.iter, 'segments')
             c = [x for x in src.calls_in(st, 'write_segment')]
-            oks = b is not None and len(c) == 1 and pat.match(c[0], f'write_segment(buff, {ast.unparse(st.target)}, ver, ver_range, eci)') is not None
+            bb = pat.match(c[0], f'write_segment(H_b, {ast.unparse(st.target)}, H_v, H_r, eci)') if len(c) == 1 else None
+            conv_names = {ast.unparse(t) for s_ in enc.body if isinstance(s_, ast.Assign) for t in s_.targets}
+            oks = b is not None and bb is not None and all(isinstance(bb[k], ast.Name) and bb[k].id in conv_names for k in ('b', 'v', 'r'))
             yield ob('segments are written in list order with the symbol-level ver/ver_range/eci', oks, st, got=t[:100],
                      want='for segment in segments: write_segment(buff, segment, ver, ver_range, eci)')
         elif isinstance(st, ast.Expr) and isinstance(st.value, ast.Call) and src.call_name(st.value) == 'write_terminator':
@@ -452,7 +454,8 @@ def r8(fx):
              want=['sa', 'segments', 'terminator', 'final'])
     fm = [s for s in enc.body if isinstance(s, ast.Assign) and 'make_final_message' in ast.unparse(s)]
     a = single(fm, 'make_final_message call')
-    yield ob('final message built from (version, error, buff)', pat.match(a.value, 'make_final_message(version, error, buff)') is not None,
+    bfm = pat.match(a.value, 'make_final_message(version, error, H_b)')
+    yield ob('final message built from (version, error, the bit buffer)', bfm is not None and isinstance(bfm['b'], ast.Name),
              a, got=ast.unparse(a.value), want='make_final_message(version, error, buff)')
 
 
